@@ -1,2 +1,18 @@
-import CoseModel
-def main : IO Unit := IO.println "hi"
+import CoseModel.Driver
+open CoseModel
+
+partial def loop (hin hout : IO.FS.Stream) : IO Unit := do
+  let line ← hin.getLine
+  if line.isEmpty then return ()
+  let l := (line.dropEndWhile (fun c => c == '\n' || c == '\r')).toString
+  if l.isEmpty || l.startsWith "#" then
+    hout.putStrLn "skip"
+  else
+    hout.putStrLn (runLine l)
+  loop hin hout
+
+def main : IO Unit := do
+  let hin ← IO.getStdin
+  let hout ← IO.getStdout
+  loop hin hout
+  hout.flush
